@@ -35,6 +35,10 @@ VERIF_FAIL = (
     "assert_by",
     "index out of bounds",
     "cannot show",
+    "unable to prove",
+    "cannot prove",
+    "loop ensures",
+    "invariant_except_break",
     "failed to satisfy",
 )
 UNDECIDED_MARK = ("Resource limit (rlimit) exceeded", "rlimit exceeded", "timed out", "solver")
